@@ -21,6 +21,20 @@ Theorem C14_retry : forall o data,
 Proof. exact adfi_write_retry. Qed.
 Print Assumptions C14_retry.
 
+(* The read side of the same loop, for EVERY response stream: ADFI_read terminates; -1 iff a hard error came first;
+   otherwise it returns every byte between the file position and min(position + n, end of file): short counts and
+   EINTR are retried, only end of file (read() = 0) ends the loop early.  (Read-side faults are OUTSIDE the property's
+   quantifier "fails, shortens or interrupts any write, seek or close"; the theorem is what the call-by-call
+   correspondence holds the library's ADFI_read to.) *)
+Theorem C14_read_retry : forall o n,
+  exists r bytes o',
+    adfi_read o n = Some (r, bytes, o') /\ disk o' = disk o /\ (resps o = [] -> resps o' = []) /\
+    ((r = -1 /\ rderr o' = true /\ resps o <> []) \/
+     (bytes = firstn n (skipn (pos o) (disk o)) /\ r = Z.of_nat (length bytes) /\
+      pos o' = (pos o + length bytes)%nat /\ rderr o' = rderr o)).
+Proof. exact adfi_read_retry. Qed.
+Print Assumptions C14_read_retry.
+
 (* For EVERY history of ADFI_write_file / ADFI_read_file / ADFI_flush_buffers / fsync / ADFI_close_file calls,
    every initial file and EVERY response stream: if every operation INCLUDING the close reported NO_ERROR (and no
    read() failed hard -- reads are outside the property; see C14_read_error_swallowed_refuted), the fault-free
